@@ -1,7 +1,7 @@
 """C09 - syscall arguments are rendered from the matching START argument, in order."""
 from __future__ import annotations
 
-from .. import decoders, render, sym
+from .. import decoders, normal, render, sym
 from ..decoders import classify, fmt_atoms
 from ..model import Repo
 from ..report import Run
@@ -48,10 +48,13 @@ def numeric_form(t: T):
         f, args = t.a[0], t.a[1]
         if f.op == "builtin" and f.a[0] in ("hex", "int", "str") and len(args) == 1 and not t.a[2]:
             return numeric_form(args[0])
-    if t.op == "attr" and t.a[1] == "value" and t.a[0].op == "call":
-        c = t.a[0]
-        if c.a[0].op == "global" and c.a[0].a[0] in SIGNED and len(c.a[1]) == 1:
-            return numeric_form(c.a[1][0])
+    v = normal.view_of_word(t)
+    if v is not None:
+        # a fixed-width view of the word: the full 64 bits (signed or not) are the argument itself, fewer bits are not
+        inner = numeric_form(v[0])
+        if inner == "num":
+            return "num" if v[1] >= 64 else "narrow"
+        return inner
     # arithmetic-only?
     if _arith_only(t):
         return "arith"
@@ -147,12 +150,14 @@ def analyse(D: decoders.Decoders, e, run: Run, facts_out=None) -> int:
                 if depth == 1 and not in_q:
                     nf = numeric_form(t)
                     if nf is not None:
-                        exc = NUMERIC_EXCEPTIONS.get((e.key, p)) if nf == "arith" else None
+                        exc = NUMERIC_EXCEPTIONS.get((e.key, p)) if nf in ("arith", "narrow") else None
                         okn = nf == "num" or exc is not None
                         run.ob("R4", mod, scope, construct, okn,
                                "" if okn else
-                               f"{sh.name}(): position {p} shows {sym.pretty(t)[:80]}, which is not the START word in "
-                               f"decimal, hexadecimal or signed form",
+                               (f"{sh.name}(): position {p} shows only the low bits of START word {p} "
+                                f"({sym.pretty(t)[:70]}): a 64-bit argument is cut" if nf == "narrow" else
+                                f"{sh.name}(): position {p} shows {sym.pretty(t)[:80]}, which is not the START word in "
+                                f"decimal, hexadecimal or signed form"),
                                facts=dict(f, exception=exc) if exc else f, line=e.func.lineno)
                 npos += 1
     return npos
